@@ -326,6 +326,8 @@ def fixed_sess(tier):
     for role in (0, 1):
         for retry in (None, [9, 9, 9, 9], [9] * 8, [9] * 20, [5, 6, 7]):
             for peer in ([], [0xAA, 0xBB, 0xCC, 0xDD], [3] * 20):
+                if retry is not None and len(retry) < 4 and (peer or role == 0):
+                    continue            # a Retry SCID below 4 bytes is the known finding rscid_short: a few cases suffice
                 for ents in sess_variants(rng, role, retry, odcid, peer):
                     if len(ents) > 3:
                         continue
@@ -348,7 +350,7 @@ def gen_sess(rng):
     role = rng.choice([0, 1, 1])
     odcid = rbytes(rng, rng.choice([8, 8, 9, 16, 20]))
     peer = rbytes(rng, rng.choice([0, 4, 8, 8, 20, 1]))
-    retry = rbytes(rng, rng.choice([4, 4, 8, 20, 5, 0, 3])) if (role == 1 and rng.random() < 0.5) or rng.random() < 0.1 else None
+    retry = rbytes(rng, rng.choice([4, 4, 8, 20, 5, 16, 4, 8, 8, 20, 5, 16, 3])) if (role == 1 and rng.random() < 0.5) or rng.random() < 0.1 else None
     ents = rng.choice(sess_variants(rng, role, retry, odcid, peer)) if rng.random() < 0.8 else \
         [(0x0F, peer)] + ([(0x00, odcid)] if role else []) + ([(0x10, retry)] if retry is not None and role else [])
     ents = [(p, v) for p, v in ents]
